@@ -234,6 +234,9 @@ func runStream(r *vrun.Run, c streamCase) {
 	canon := fmt.Sprintf("%+v", c)
 	nontrivial := c.Fault != "none" || c.Len == 0 || c.Max == int64(c.Len) || c.Max == int64(c.Len)+1 || c.Max == int64(c.Len)-1 || c.Len%512 <= 1 || c.Len%512 == 511
 	r.Case(canon, nontrivial)
+	if nontrivial && c.Len == 4097 && c.Script == 3 && r.WantSample() {
+		r.Sample(map[string]any{"stream_case": c, "result": fmt.Sprint(err), "delivered_bytes": len(got), "read_calls": sr.calls})
+	}
 	r.Obs("stream_cases", 1)
 	r.Obs("stream_read_calls_observed", int64(sr.calls))
 	r.ObsSet("stream_helpers", c.Helper+"/"+c.Fault)
